@@ -24,6 +24,10 @@ var VerifC13Restart bool
 // and was reconfigured live (ConfigurePool in the same process) to the configuration in force before the pod arrives.
 var VerifC13Reconfigured bool
 
+// VerifC13StaleInfos: the pod reaches the scheduler with an args annotation that already carries common.ipinfos of
+// some earlier life (re-created from a saved manifest, or by a controller that copies annotations).
+var VerifC13StaleInfos bool
+
 // VerifBindForC13 schedules one statefulset pod requesting k ranges (k = 0 means no request_ip_range) on topology
 // topo whose pools carry the VLAN ids vlans (pool i gets vlans[i mod len]; may be symbolic) through the real Filter and Bind and reports the outcome.
 func VerifBindForC13(topo, k int, vlans ...uint16) *VerifBound {
@@ -54,7 +58,16 @@ func VerifBindForC13(topo, k int, vlans ...uint16) *VerifBound {
 		}
 		ranges += "]"
 	}
-	w.createPod(vpMakePod("ss-0", "U1", vpKindSts, "", "", ranges))
+	pod0 := vpMakePod("ss-0", "U1", vpKindSts, "", "", ranges)
+	if VerifC13StaleInfos {
+		stale := `"common":{"ipinfos":[{"ip":"10.9.9.9/24","vlan":7,"gateway":"10.9.9.1"}]}`
+		if ranges != "" {
+			pod0.Annotations[constant.ExtendedCNIArgsAnnotation] = `{"request_ip_range":` + ranges + `,` + stale + `}`
+		} else {
+			pod0.Annotations[constant.ExtendedCNIArgsAnnotation] = `{` + stale + `}`
+		}
+	}
+	w.createPod(pod0)
 	w.syncListers()
 	if VerifC13PreHeld > 0 && VerifC13PreHeld <= k {
 		// the pod already holds the IP of one of its requested ranges (a former bind of a smaller request)
